@@ -24,7 +24,9 @@ RULE = ('For Hypothesis-drawn (program, list-like container incl. virtual fields
         'signature list is compared and the rest of the tree with the container masked must be unchanged); single element put / '
         'delete changes exactly one position (delete in Dict.keys style fields means None); '
         '(entry points) the same request through put_slice, put(one=False), view slice assignment / deletion, attribute '
-        'assignment for whole fields, insert / append / extend / prepend / prextend, view.replace / remove gives identical source; '
+        'assignment for whole fields, insert / append / extend / prepend / prextend, view.replace / remove gives identical source, and so does '
+        'the request written relative to three drawn sub-views view[a:b] (a <= start, stop <= b) through the sub-view\'s own insert (non-negative, '
+        'negative and below-range index, \'end\') / extend / prextend / slice assignment / slice deletion / replace / remove; '
         '(layout) the same request on a layout-mutated variant of the program gives the same structure; (index forms) i, i-n and '
         '\'end\' agree; (refusal) if the model result is valid Python (survives unparse->parse) a raise is a violation unless it is '
         'NotImplementedError, a norm refusal to empty a required field, or a documented ordering rule. Reversed bounds: Python '
@@ -339,6 +341,9 @@ def execute(case, ctx):
             if len(elems) != 1:
                 raise Skip('single_needs_one_element')
 
+            if donor.rstrip().endswith(','):
+                raise Skip('single_donor_trailing_comma')  # as ONE element '1,' is a one-element sequence, not the element 1
+
             new_sig = [c07.sig(elems[0]) if not isinstance(elems[0], str) else ('name', elems[0])]
         else:
             new_sig = []
@@ -518,7 +523,9 @@ def execute(case, ctx):
             if new_sigs is not None:
                 expect = old_sigs[:s2] + new_sigs + old_sigs[e2:]
 
-                if after != expect and kind != 'arguments._all':
+                if not expect and after != expect:
+                    ctx.count('emptied_container_left_invalid_without_norm(documented)')  # e.g. 'with (a, b): pass' -> 'with (): pass' re-parses as one item '()'
+                elif after != expect and kind != 'arguments._all':
                     raise Violation('C03.model', f'{desc}: elements are not old[:{s2}] + new + old[{e2}:]\n got    {after}\n expect {expect}\n--- before ---\n{src[:400]}\n--- after ---\n{after_src[:400]}',
                                     f'model_sig:{site}')
 
@@ -544,6 +551,82 @@ def execute(case, ctx):
         if r2.src != after_src:
             raise Violation('C03.entry_points', f'{desc}: entry point {route} gives different source than put_slice\n--- put_slice ---\n{after_src[:500]}\n--- {route} ---\n{r2.src[:500]}',
                             f'route:{route}:{site}')
+
+    # ---- sub-views: the same request written relative to a window view[a:b] with a <= start and stop <= b, through the view's own list methods
+    if not reversed_bounds:
+        for k in range(3):
+            sel = case['csel'] // (7 ** (k + 1)) + case['dsel'] * (k + 1)
+            a = s2 - (sel % (s2 + 1))
+            b = e2 + ((sel // 11) % (n - e2 + 1))
+            m = b - a
+            rs, re_ = s2 - a, e2 - a
+            form = (sel // 131) % 5
+            sub_desc = None
+
+            def rel(i, neg):
+                return i - m if neg and i < m else i
+
+            try:
+                r5 = FST(src, 'exec')
+                pf5 = locate(r5.a, path).f
+                v = getattr(pf5, field)[a:b]
+                code5 = make_code(kind, donor, case['form']) if not delete else None
+
+                if delete:
+                    if form == 0:
+                        sub_desc = f'del view[{a}:{b}][{rs}:{re_}]'
+                        del v[rs:re_]
+                    elif form == 1:
+                        sub_desc = f'view[{a}:{b}][{rel(rs, True)}:{rel(re_, True) if re_ < m else None}].remove()'
+                        v[rel(rs, True):(rel(re_, True) if re_ < m else None)].remove()
+                    elif rs == 0 and re_ == m:
+                        sub_desc = f'view[{a}:{b}].remove()'
+                        v.remove()
+                    else:
+                        sub_desc = f'view[{a}:{b}][{rs}:{re_}].remove()'
+                        v[rs:re_].remove()
+                elif rs == re_:
+                    if form == 0:
+                        sub_desc = f'view[{a}:{b}].insert(code, {rs})'
+                        v.insert(code5, rs, one=False)
+                    elif form == 1 and rs < m:
+                        sub_desc = f'view[{a}:{b}].insert(code, {rs - m})'
+                        v.insert(code5, rs - m, one=False)
+                    elif form == 2 and rs == 0:
+                        oob = -m - 1 - (sel % 3)
+                        sub_desc = f'view[{a}:{b}].insert(code, {oob})  (below the start of the view: clamps to its start)'
+                        v.insert(code5, oob, one=False)
+                    elif form == 3 and rs == m:
+                        sub_desc = f'view[{a}:{b}].extend(code)'
+                        v.extend(code5)
+                    elif form == 4 and rs == 0:
+                        sub_desc = f'view[{a}:{b}].prextend(code)'
+                        v.prextend(code5)
+                    elif rs == m:
+                        sub_desc = f"view[{a}:{b}].insert(code, 'end')"
+                        v.insert(code5, 'end', one=False)
+                    else:
+                        sub_desc = f'view[{a}:{b}][{rs}:{rs}] = code'
+                        v[rs:rs] = code5
+                else:
+                    if form in (0, 3):
+                        sub_desc = f'view[{a}:{b}][{rs}:{re_}] = code'
+                        v[rs:re_] = code5
+                    elif form == 1:
+                        sub_desc = f'view[{a}:{b}][{rel(rs, True)}:{rel(re_, True) if re_ < m else None}] = code'
+                        v[rel(rs, True):(rel(re_, True) if re_ < m else None)] = code5
+                    else:
+                        sub_desc = f'view[{a}:{b}][{rs}:{re_}].replace(code, one=False)'
+                        v[rs:re_].replace(code5, one=False)
+            except Exception as e5:
+                raise Violation('C03.subview', f'{desc}: succeeded through put_slice but the equivalent {sub_desc} raised {e5!r}\n--- before ---\n{src[:400]}',
+                                f'subview_raise:{(sub_desc or "?").split("(")[0].split("]")[-1]}:{site}') from None
+
+            ctx.count(f'subview:{sub_desc.split("[")[0] if sub_desc.startswith("del") else sub_desc.split("]")[-1].split("(")[0].strip() or "setslice"}')
+
+            if r5.src != after_src:
+                raise Violation('C03.subview', f'{desc}: the equivalent {sub_desc} gives a different source than put_slice\n--- put_slice ---\n{after_src[:500]}\n--- sub-view ---\n{r5.src[:500]}',
+                                f'subview:{sub_desc.split("]")[-1].split("(")[0].strip() or "setslice"}:{site}')
 
     # ---- index forms: the same bounds written differently
     alt = []
